@@ -59,8 +59,12 @@ static void check_projection(Ctx& ctx, const Ell& E, const Under& U, const Oracl
                              bool do_jacobian) {
   const Q ascale = E.a / WGS84_A;
   const Q TOLP = 20e-9Q * ascale;                   // 2 x 10 nm
-  const Q KREL = 8e-15Q;                            // scale, relative: calibrated (4 x worst observed 1.6e-15), >= 16 eps
-  const Q GTOL = 2e-13Q;                            // convergence, degrees: calibrated (4 x worst observed 4e-14)
+  const Q KREL = 1.6e-14Q;                          // scale, relative: calibrated (4 x worst observed 3.8e-15; >= 16 eps)
+  const Q GTOL = 7e-13Q;                            // convergence, degrees: calibrated (4 x worst observed 1.7e-13 = 1 ulp of 179 deg x n)
+  // round-off allowance in the plane, in ulp of the working size: 16 for |f| <= 0.01 ("close to full accuracy", calibrated 4 x worst observed), 64 beyond
+  // (documented only as "reasonably accurate" for |f| <= 0.1; larger |f| "verify independently")
+  const Q ULPS = fabsq(E.f) <= 0.0100001Q ? 16 : 64;
+  const bool clean_obj = U.defect.empty();          // per-predicate worst cases are recorded only for objects without a known defect
   // Math::tauf on prolate ellipsoids (known finding): Reverse errors up to about a (2.2 |e^2|)^6 (for |e^2| > 0.45 the iteration does not converge at all)
   const Q tauf_gross = fam.prolate ? (2.2Q * fabsq(E.e2) < 0.9Q ? 4 * E.a * powq(2.2Q * fabsq(E.e2), 6) : HUGE_VALQ) : Q(0);
   for (double lat : A.lats) for (double lon0 : A.lon0s) for (double dnom : A.dlons) {
@@ -68,6 +72,7 @@ static void check_projection(Ctx& ctx, const Ell& E, const Under& U, const Oracl
     const double lon = lon0 + dnom, dlon = eff_dlon(lon0, lon);
     mc::Ctx::Case cs(ctx);
     const std::string where = U.name + " lat=" + fx(lat) + " lon0=" + fmt(lon0) + " lon=" + fx(lon) + " dlon=" + fx(dlon);
+    auto WORST = [&](const std::string& nm, double v, const std::string& w) { if (clean_obj && !(fam.prolate && nm.find("rev") != std::string::npos) && !(fam.prolate && nm.find("roundtrip") != std::string::npos)) ctx.worst(nm, v, w); };
     auto FAIL = [&](const char* kind, const std::string& msg, mc::Fields extra = {}) {
       mc::Fields f = {{"kind", kind}, {"proj", U.name}, {"lat", fmt(lat)}, {"dlon", fmt(dlon)}, {"lon0", fmt(lon0)}};
       for (auto& t : extra) f.push_back(t);
@@ -88,8 +93,31 @@ static void check_projection(Ctx& ctx, const Ell& E, const Under& U, const Oracl
     const bool singular = pole && !regpole;
     const Q gref = O.gamma(lam) / proj_cf::deg();
     ctx.sig((uint64_t)singular + 2 * (uint64_t)regpole + 4 * (uint64_t)(P.finite ? 1 : 0));
+    // conditioning: results are doubles, so a plane error of ULPS ulp of the working size (a, rho0, |x|, |y|) is unavoidable; on the ground it is amplified by 1/k
+    // (conformal) resp. max(k, 1/k) (equal area: east-west plane errors shrink by k, north-south ones grow by k)
+    const Q size = std::max(std::max(fabsq(Q(x)), fabsq(Q(y))), std::max(fabsq(O.rho0), E.a));
+    const Q eps_plane = ULPS * 1.1e-16Q * size;
+    const Q amp = !finiteq(kk) ? Q(1) : (O.conformal ? 1 / kk : (kk > 1 ? kk : 1 / kk));
+    // equal area near a pole: the radial plane coordinate is stationary in latitude (d rho ~ sin(colat) d colat): a plane error eps maps to at most sqrt(2 a eps) on the ground
+    const Q sqb = O.conformal ? HUGE_VALQ : sqrtq(2 * E.a * 2 * eps_plane);
+    const Q TOLF = TOLP + eps_plane * amp;                                   // forward position, ground
+    const Q TOLR = TOLP + std::min(eps_plane * amp, sqb);                    // positions obtained through Reverse, ground
+    const Q rapex = (O.conic && !singular) ? hypotq(P.x, O.rho0 - P.y) : HUGE_VALQ;     // distance to the apex: k = rho n/(a m) and gamma = atan2(..) are relative to it
+    const Q tplane_r = TOLP * (finiteq(kk) ? (O.conformal ? kk : 1 / kk) : 1) + eps_plane;   // radial plane tolerance
+    const Q TK = KREL + tplane_r / rapex;                                     // scale, relative
 
     bool defect_hit = false;                   // the forward result is exactly what the object's described known defect produces
+    auto is_defect = [&]() -> bool {
+      if (U.defect.empty()) return false;
+      XY Pd = U.defect_image(L, lam); Q kd = U.defect_k(L);
+      Q exd = Q(x) - Pd.x, eyd = Q(y) - Pd.y;
+      if (!finiteq(kd) || !(kd > 0)) return hypotq(exd, eyd) <= TOLP + 64 * 1.1e-16Q * hypotq(Pd.x, Pd.y);     // the defect image is a singular pole: plane comparison
+      Q gd, ampd = O.conformal ? 1 / kd : (kd > 1 ? kd : 1 / kd);
+      if (O.conformal) gd = hypotq(exd, eyd) / kd;
+      else { Q g = O.gamma(lam), ce = cosq(g), se = sinq(g); gd = hypotq((exd * ce + eyd * se) / kd, (-exd * se + eyd * ce) * kd); }
+      // classification only: position within the tolerance + 64 ulp of the plane coordinates mapped to the ground, scale to 1e-9
+      return gd <= TOLP + 64 * 1.1e-16Q * hypotq(Pd.x, Pd.y) * ampd && fabsq(Q(k) / kd - 1) <= 1e-9Q;
+    };
     auto DT = [&]() -> mc::Fields { return defect_hit ? mc::Fields{{"defect", U.defect}} : mc::Fields{}; };
     auto DR = [&]() -> mc::Fields { return (defect_hit || (!U.defect.empty() && U.defect_in_reverse)) ? mc::Fields{{"defect", U.defect}} : mc::Fields{}; };
 
@@ -104,55 +132,51 @@ static void check_projection(Ctx& ctx, const Ell& E, const Under& U, const Oracl
         gerr = hypotq(e_ew / kk, e_ns * kk);
       }
       const char* cls = O.conformal ? "conformal" : "albers";
-      if (!U.defect.empty() && gerr > TOLP) {
-        XY Pd = U.defect_image(L, lam); Q kd = U.defect_k(L);
-        Q exd = Q(x) - Pd.x, eyd = Q(y) - Pd.y, gd;
-        if (O.conformal) gd = hypotq(exd, eyd) / kd;
-        else { Q g = O.gamma(lam), ce = cosq(g), se = sinq(g); gd = hypotq((exd * ce + eyd * se) / kd, (-exd * se + eyd * ce) * kd); }
-        defect_hit = gd <= TOLP && fabsq(Q(k) / kd - 1) <= KREL;
-      }
-      ctx.worst(std::string(cls) + ".fwd.pos/tol", D(gerr / TOLP), where);
-      if (gerr > TOLP) FAIL("fwd-oracle", "ground error " + fq(gerr) + " m > " + fq(TOLP) + " (x=" + fx(x) + " y=" + fx(y) + " closed form " + fq(P.x) + "," + fq(P.y) + " k=" + fq(kk) + ")", DT());
+      if (gerr > TOLF) defect_hit = is_defect();
+      WORST(std::string(cls) + ".fwd.pos/tol", D(gerr / TOLF), where);
+      if (eps_plane * amp < TOLP) WORST(std::string(cls) + ".fwd.pos-wellconditioned_nm", D(gerr / ascale * 1e9Q), where);
+      if (gerr > TOLF) FAIL("fwd-oracle", "ground error " + fq(gerr) + " m > " + fq(TOLF) + " (x=" + fx(x) + " y=" + fx(y) + " closed form " + fq(P.x) + "," + fq(P.y) + " k=" + fq(kk) + ")", DT());
       Q eg = fabsq(angdiff(Q(gam), gref)), ek = fabsq(Q(k) / kk - 1);
-      ctx.worst(std::string(cls) + ".fwd.gamma/tol", D(eg / GTOL), where);
-      ctx.worst(std::string(cls) + ".fwd.k/tol", D(ek / KREL), where);
+      WORST(std::string(cls) + ".fwd.gamma/tol", D(eg / GTOL), where);
+      WORST(std::string(cls) + ".fwd.k/tol", D(ek / TK), where);
       if (eg > GTOL) FAIL("fwd-convergence", "gamma=" + fx(gam) + " closed form " + fq(gref));
-      if (ek > KREL) FAIL("fwd-scale", "k=" + fx(k) + " closed form " + fq(kk), DT());
+      if (ek > TK) FAIL("fwd-scale", "k=" + fx(k) + " closed form " + fq(kk) + " tol " + fq(TK), DT());
     } else {
       // singular pole (image at infinity, or apex of a cone with k = inf): documented "large but finite"; the point must lie on the ray of its meridian, beyond
       // the image of |lat| = 90 - 1e-9, and the convergence is still n*lam
       ctx.count("singular-pole.cases");
+      defect_hit = is_defect();
       Q eg = fabsq(angdiff(Q(gam), gref));
       if (eg > GTOL) FAIL("fwd-convergence", "gamma=" + fx(gam) + " closed form " + fq(gref) + " (singular pole)");
       Lat Ln = proj_cf::latd(lat > 0 ? 89.999999999 : -89.999999999);
       XY Pn = O.fwd(Ln, lam);
-      if (O.conic) {
+      if (!O.conformal) {            // equal area: the pole is a finite arc (or line) with k = inf: plane tolerance
+        Q e = hypotq(Q(x) - P.x, Q(y) - P.y), t = TOLP + 16 * 1.1e-16Q * hypotq(P.x, P.y);
+        WORST("albers.singular-pole.plane/tol", D(e / t), where);
+        if (e > t) FAIL("singular-pole", "pole arc: x=" + fx(x) + " y=" + fx(y) + " closed form " + fq(P.x) + "," + fq(P.y), DT());
+      } else if (O.conic) {
         Q rl = hypotq(Q(x), O.rho0 - Q(y)), rn = hypotq(Pn.x, O.rho0 - Pn.y);
         bool toward_apex = (O.n > 0) == (lat > 0);
         bool ok = toward_apex ? rl <= rn * (1 + 1e-12Q) : rl >= rn * (1 - 1e-12Q);
         Q th = atan2q(Q(x) * (O.n > 0 ? 1 : -1), (O.rho0 - Q(y)) * (O.n > 0 ? 1 : -1));     // x = rho sin theta, rho0 - y = rho cos theta (rho carries the sign of n)
         Q eth = rl > 0 ? fabsq(remainderq(th - O.n * lam, 2 * proj_cf::pi())) : Q(0);
         if (rl * eth > TOLP * 1e3Q && eth > 1e-12Q) ok = false;
-        if (!ok) FAIL("singular-pole", "x=" + fx(x) + " y=" + fx(y) + " not on the meridian ray beyond the image of |lat|=90-1e-9 (" + fq(Pn.x) + "," + fq(Pn.y) + ")");
+        if (!ok) FAIL("singular-pole", "x=" + fx(x) + " y=" + fx(y) + " not on the meridian ray beyond the image of |lat|=90-1e-9 (" + fq(Pn.x) + "," + fq(Pn.y) + ")", DT());
       } else if (O.conformal) {      // Mercator: x exact, |y| beyond the neighbour
         Q ex = fabsq(Q(x) - P.x);
         if (ex > TOLP * (1 + fabsq(P.x) * 1e-8Q) || !(fabsq(Q(y)) >= fabsq(Pn.y)) || (y > 0) != (lat > 0)) FAIL("singular-pole", "Mercator pole: x=" + fx(x) + " y=" + fx(y));
-      } else {                        // cylindrical equal area: the pole is a finite line, k = inf: plane tolerance
-        Q e = hypotq(Q(x) - P.x, Q(y) - P.y);
-        ctx.worst("albers.cyl-pole.plane/tol", D(e / TOLP), where);
-        if (e > TOLP) FAIL("singular-pole", "cylindrical pole line: x=" + fx(x) + " y=" + fx(y) + " closed form " + fq(P.x) + "," + fq(P.y));
       }
     }
 
     // ---- scale prescribed on the standard parallels
     for (double sl : stdlats) if (lat == sl && !singular) {
       Q ek = fabsq(Q(k) / Q(k1) - 1);
-      ctx.worst("std-parallel.k/tol", D(ek / KREL), where);
-      if (ek > KREL) FAIL("std-parallel-scale", "k=" + fx(k) + " on the standard parallel, prescribed " + fmt(k1), DT());
+      WORST("std-parallel.k/tol", D(ek / TK), where);
+      if (ek > TK) FAIL("std-parallel-scale", "k=" + fx(k) + " on the standard parallel, prescribed " + fmt(k1), DT());
     }
 
     // ---- rotation and magnification of the oracle map (central differences of the closed-form map)
-    if (do_jacobian && std::fabs(lat) <= 89.9 && lon0 == 0 && !singular) {
+    if (do_jacobian && std::fabs(lat) <= 89.9 && lon0 == 0 && !singular && !(O.n != 0 && fabsq(O.n) < 1e-6Q)) {      // 0 < |n| < 1e-6: rho ~ a/n, differences of the naive closed form lose too many digits
       Q phi = Q(lat) * proj_cf::deg();
       const Q h = ldexpq(Q(1), -30);
       XY a = O.fwd(proj_cf::latr(phi + h), lam), b = O.fwd(proj_cf::latr(phi - h), lam), c = O.fwd(L, lam + h), d = O.fwd(L, lam - h);
@@ -161,9 +185,9 @@ static void check_projection(Ctx& ctx, const Ell& E, const Under& U, const Oracl
       Q rot = -atan2q(nx, ny) / proj_cf::deg();
       const Q JT = 1e-12Q;
       Q e1 = fabsq(Q(k) / mE - 1), e2 = O.conformal ? fabsq(mN / mE - 1) : fabsq(mN * mE - 1), e3 = fabsq(dot), e4 = fabsq(angdiff(Q(gam), rot)), e5 = O.conformal ? Q(0) : fabsq(det - 1);
-      ctx.worst("jacobian.k-vs-magnification/tol", D(e1 / JT), where);
-      ctx.worst(O.conformal ? "jacobian.isotropy/tol" : "jacobian.area/tol", D((O.conformal ? e2 : std::max(e2, e5)) / JT), where);
-      ctx.worst("jacobian.gamma-vs-rotation/tol", D(e4 / (GTOL + 1e-10Q)), where);
+      WORST("jacobian.k-vs-magnification/tol", D(e1 / JT), where);
+      WORST(O.conformal ? "jacobian.isotropy/tol" : "jacobian.area/tol", D((O.conformal ? e2 : std::max(e2, e5)) / JT), where);
+      WORST("jacobian.gamma-vs-rotation/tol", D(e4 / (GTOL + 1e-10Q)), where);
       if (e1 > JT) FAIL("jacobian-scale", "k=" + fx(k) + " but the closed-form map stretches east-west by " + fq(mE), DT());
       if (e2 > JT || e3 > JT || e5 > JT) FAIL("jacobian-oracle", "closed-form map not conformal/equal-area here: |N|=" + fq(mN) + " |E|=" + fq(mE) + " cos=" + fq(dot) + " det=" + fq(det));
       if (e4 > GTOL + 1e-10Q) FAIL("jacobian-rotation", "gamma=" + fx(gam) + " but the closed-form map rotates north by " + fq(rot));
@@ -180,22 +204,25 @@ static void check_projection(Ctx& ctx, const Ell& E, const Under& U, const Oracl
       Q dE = pole ? Q(0) : angdiff(angdiff(Q(lo2), Q(lon0)), Q(dlon)) * proj_cf::deg() * Pr;
       if (fabsq(O.n * Q(dlon)) >= 180 && !pole) dE = 0;         // the cone's cut: longitudes +-180 coincide only for |n| = 1; compared through the plane below
       Q err = hypotq(dN, dE);
-      Q amp = O.conformal ? 1 / kk : (kk > 1 ? kk : 1 / kk);                // plane rounding errors mapped back to the ground
-      Q trt = TOLP + (singular ? Q(0) : 8 * 1.1e-16Q * hypotq(Q(x), Q(y)) * amp);
+      Q trt = singular ? (O.conformal ? TOLP : TOLP + sqb) : TOLR;
+      // convergence returned by Reverse = atan2 of plane coordinates relative to the apex: position tolerance and rounding over the distance to the apex
+      const Q tgr = 2 * GTOL + (tplane_r / rapex) / proj_cf::deg();
       if (singular) {
-        ctx.worst("roundtrip.singular-pole_m", D(err), where);
-        if (!(err <= TOLP)) FAIL("roundtrip-singular-pole", "reverse(forward(pole)) = lat " + fx(la2) + ", " + fq(err) + " m from the pole");
+        WORST(O.conformal ? "roundtrip.singular-pole.conformal_m" : "roundtrip.singular-pole.albers/tol", D(O.conformal ? err : err / trt), where);
+        if (!(err <= trt)) FAIL("roundtrip-singular-pole", "reverse(forward(pole)) = lat " + fx(la2) + ", " + fq(err) + " m from the pole", DR());
       } else {
-        ctx.worst(std::string(O.conformal ? "conformal" : "albers") + ".roundtrip/tol", D(err / trt), where);
+        WORST(std::string(O.conformal ? "conformal" : "albers") + ".roundtrip/tol", D(err / trt), where);
         if (!(err <= trt)) {
           if (fam.prolate && err <= tauf_gross) FAIL("roundtrip", "reverse(forward) = lat " + fx(la2) + " lon " + fx(lo2) + ", ground error " + fq(err) + " m > " + fq(trt), {{"tauf", "prolate-reverse"}});
           else FAIL("roundtrip", "reverse(forward) = lat " + fx(la2) + " lon " + fx(lo2) + ", ground error " + fq(err) + " m > " + fq(trt), DR());
         }
         Q eg = fabsq(angdiff(Q(g2), Q(gam))), ek = fabsq(Q(k2) / Q(k) - 1);
-        Q tk2 = 4 * KREL + 2 * trt / (E.a * (L.c > 1e-30Q ? L.c : 1e-30Q));      // scale varies like 1/cos(lat) near a singular pole: position tolerance over the polar distance
-        ctx.worst("rev-vs-fwd.gamma/tol", D(eg / (2 * GTOL)), where);
-        ctx.worst("rev-vs-fwd.k/tol", D(ek / tk2), where);
-        if (eg > 2 * GTOL && fabsq(O.n * Q(dlon)) < 180) FAIL("rev-convergence", "Reverse gamma=" + fx(g2) + " Forward gamma=" + fx(gam));
+        const Q pdist = E.a * (L.c > 1e-30Q ? L.c : 1e-30Q);                    // ~ distance to the pole
+        Q tk2 = 4 * TK + 2 * trt / pdist;                                        // scale varies like 1/cos(lat) near a singular pole: latitude tolerance over the polar distance
+        if (trt >= pdist / 4) tk2 = HUGE_VALQ;                                   // latitude tolerance reaches the pole: k unconstrained
+        WORST("rev-vs-fwd.gamma/tol", D(eg / tgr), where);
+        WORST("rev-vs-fwd.k/tol", D(ek / tk2), where);
+        if (eg > tgr && fabsq(O.n * Q(dlon)) < 180 && !regpole) FAIL("rev-convergence", "Reverse gamma=" + fx(g2) + " Forward gamma=" + fx(gam));
         if (ek > tk2) { if (fam.prolate && err <= tauf_gross) FAIL("rev-scale", "Reverse k=" + fx(k2) + " Forward k=" + fx(k), {{"tauf", "prolate-reverse"}}); else FAIL("rev-scale", "Reverse k=" + fx(k2) + " Forward k=" + fx(k), DR()); }
       }
     }
@@ -206,18 +233,20 @@ static void check_projection(Ctx& ctx, const Ell& E, const Under& U, const Oracl
       U.rev(lon0, X, Y, la2, lo2, g2, k2);
       Q dN = (Q(la2) - Q(lat)) * proj_cf::deg() * Mr, dE = pole ? Q(0) : angdiff(angdiff(Q(lo2), Q(lon0)), Q(dlon)) * proj_cf::deg() * Pr;
       Q err = hypotq(dN, dE);
-      Q amp = O.conformal ? 1 / kk : (kk > 1 ? kk : 1 / kk);
-      Q trt = TOLP + 8 * 1.1e-16Q * hypotq(P.x, P.y) * amp;
-      ctx.worst(std::string(O.conformal ? "conformal" : "albers") + ".rev-oracle.pos/tol", D(err / trt), where);
+      Q trt = TOLR;
+      const Q tgr = 2 * GTOL + (tplane_r / rapex) / proj_cf::deg();
+      WORST(std::string(O.conformal ? "conformal" : "albers") + ".rev-oracle.pos/tol", D(err / trt), where);
       if (!(err <= trt)) {
         if (fam.prolate && err <= tauf_gross) FAIL("rev-oracle", "Reverse(closed-form image) = lat " + fx(la2) + " lon " + fx(lo2) + ", ground error " + fq(err) + " m", {{"tauf", "prolate-reverse"}});
         else FAIL("rev-oracle", "Reverse(closed-form image) = lat " + fx(la2) + " lon " + fx(lo2) + ", ground error " + fq(err) + " m > " + fq(trt), (!U.defect.empty() && U.defect_in_reverse) ? mc::Fields{{"defect", U.defect}} : mc::Fields{});
       }
       Q eg = fabsq(angdiff(Q(g2), gref)), ek = fabsq(Q(k2) / kk - 1);
-      Q tk2 = 4 * KREL + 2 * trt / (E.a * (L.c > 1e-30Q ? L.c : 1e-30Q));
-      ctx.worst("rev-oracle.gamma/tol", D(eg / (2 * GTOL)), where);
-      ctx.worst("rev-oracle.k/tol", D(ek / tk2), where);
-      if (eg > 2 * GTOL) FAIL("rev-oracle-convergence", "gamma=" + fx(g2) + " closed form " + fq(gref));
+      const Q pdist = E.a * (L.c > 1e-30Q ? L.c : 1e-30Q);
+      Q tk2 = 4 * TK + 2 * trt / pdist;
+      if (trt >= pdist / 4) tk2 = HUGE_VALQ;
+      WORST("rev-oracle.gamma/tol", D(eg / tgr), where);
+      WORST("rev-oracle.k/tol", D(ek / tk2), where);
+      if (eg > tgr && !regpole) FAIL("rev-oracle-convergence", "gamma=" + fx(g2) + " closed form " + fq(gref), (!U.defect.empty() && U.defect_in_reverse) ? mc::Fields{{"defect", U.defect}} : mc::Fields{});
       if (ek > tk2) { if (fam.prolate && err <= tauf_gross) FAIL("rev-oracle-scale", "k=" + fx(k2) + " closed form " + fq(kk), {{"tauf", "prolate-reverse"}}); else FAIL("rev-oracle-scale", "k=" + fx(k2) + " closed form " + fq(kk), (!U.defect.empty() && U.defect_in_reverse) ? mc::Fields{{"defect", U.defect}} : mc::Fields{}); }
     }
     if (ctx.want_sample()) ctx.sample(where + " -> x=" + fmt(x) + " y=" + fmt(y) + " gamma=" + fmt(gam) + " k=" + fmt(k) + " | closed form x=" + fq(P.x) + " y=" + fq(P.y));
@@ -226,6 +255,7 @@ static void check_projection(Ctx& ctx, const Ell& E, const Under& U, const Oracl
 
 // agreement of two library objects that describe the same projection
 static void check_same(Ctx& ctx, const Ell& E, const Under& A_, const Under& B_, const Oracle& O, const Axes& A, Q tol_ground) {
+  const Q ULPS = fabsq(E.f) <= 0.0100001Q ? 16 : 64;
   for (double lat : A.lats) for (double dlon : A.dlons) {
     mc::Ctx::Case cs(ctx);
     const std::string where = A_.name + " vs " + B_.name + " lat=" + fx(lat) + " dlon=" + fx(dlon);
@@ -237,9 +267,13 @@ static void check_same(Ctx& ctx, const Ell& E, const Under& A_, const Under& B_,
     Q amp = O.conformal ? 1 / kk : (kk > 1 ? kk : 1 / kk);
     Q err = hypotq(Q(x1) - Q(x2), Q(y1) - Q(y2)) * amp;
     if (pole && !(std::fabs(x1) < 1e25 && std::fabs(y1) < 1e25)) continue;
-    Q t = tol_ground + 8 * 1.1e-16Q * hypotq(Q(x1), Q(y1)) * amp;
+    const Q size = std::max(std::max(fabsq(Q(x1)), fabsq(Q(y1))), std::max(fabsq(O.rho0), E.a));
+    const Q eps_plane = ULPS * 1.1e-16Q * size;
+    Q t = tol_ground + eps_plane * amp;
+    const Q rapex = (O.conic && !pole) ? hypotq(Q(x1), O.rho0 - Q(y1)) : HUGE_VALQ;
+    const Q tk = 2 * (1.6e-14Q + (tol_ground * (O.conformal ? kk : 1 / kk) + eps_plane) / rapex);
     ctx.worst("same-projection.pos/tol", D(err / t), where);
-    bool bad = err > t || fabsq(angdiff(Q(g1), Q(g2))) > 2e-13Q || (!pole && fabsq(Q(k1) / Q(k2) - 1) > 1.6e-14Q);
+    bool bad = err > t || fabsq(angdiff(Q(g1), Q(g2))) > 7e-13Q || (!pole && fabsq(Q(k1) / Q(k2) - 1) > tk);
     if (bad) ctx.fail(where + " same", where + ": (" + fx(x1) + "," + fx(y1) + "," + fx(g1) + "," + fx(k1) + ") vs (" + fx(x2) + "," + fx(y2) + "," + fx(g2) + "," + fx(k2) + ")",
                       {{"kind", "ctor-forms-differ"}, {"a", A_.name}, {"b", B_.name}, {"lat", fmt(lat)}, {"dlon", fmt(dlon)}});
   }
@@ -346,8 +380,8 @@ int main(int argc, char** argv) {
       Q k0o = proj_cf::PolarStereo::k0_for(E, proj_cf::latd(ls), ks);
       { mc::Ctx::Case cs(ctx);
         Q e = fabsq(Q(ps->CentralScale()) / k0o - 1);
-        ctx.worst("ps.setscale.k0/tol", D(e / 8e-15Q), "lat=" + fmt(ls));
-        if (e > 8e-15Q) ctx.fail("ps-setscale-k0 " + fmt(ls) + " " + fmt(ks) + " " + EP.name, "SetScale(" + fmt(ls) + "," + fmt(ks) + "): CentralScale " + fx(ps->CentralScale()) + " closed form " + fq(k0o), {{"kind", "setscale-k0"}, {"lat", fmt(ls)}}); }
+        ctx.worst("ps.setscale.k0/tol", D(e / 1.6e-14Q), "lat=" + fmt(ls));
+        if (e > 1.6e-14Q) ctx.fail("ps-setscale-k0 " + fmt(ls) + " " + fmt(ks) + " " + EP.name, "SetScale(" + fmt(ls) + "," + fmt(ks) + "): CentralScale " + fx(ps->CentralScale()) + " closed form " + fq(k0o), {{"kind", "setscale-k0"}, {"lat", fmt(ls)}}); }
       Under U; U.name = std::string("PolarStereographic(") + EP.name + ").SetScale(" + fmt(ls) + "," + fmt(ks) + ")"; bind_ps(U, ps, true);
       Oracle O = make_ps_oracle(E, (double)k0o, true);
       // the oracle uses the closed-form k0 in quad precision (not rounded): rebuild with exact value
@@ -356,7 +390,7 @@ int main(int argc, char** argv) {
       check_projection(ctx, E, U, O, A, famc, {}, 1.0, false);
       { mc::Ctx::Case cs(ctx); double x, y, g, k; ps->Forward(true, ls, 20, x, y, g, k);
         Q e = fabsq(Q(k) / Q(ks) - 1);
-        if (e > 8e-15Q) ctx.fail("ps-setscale-k " + fmt(ls) + " " + fmt(ks) + " " + EP.name, "after SetScale(" + fmt(ls) + "," + fmt(ks) + ") Forward gives k=" + fx(k), {{"kind", "setscale-k"}, {"lat", fmt(ls)}}); }
+        if (e > 1.6e-14Q) ctx.fail("ps-setscale-k " + fmt(ls) + " " + fmt(ks) + " " + EP.name, "after SetScale(" + fmt(ls) + "," + fmt(ks) + ") Forward gives k=" + fx(k), {{"kind", "setscale-k"}, {"lat", fmt(ls)}}); }
     }
 
     // ===================================================================== conics: LCC (conformal) and Albers (equal area)
@@ -438,7 +472,8 @@ int main(int argc, char** argv) {
           if (fi > 0) { Axes As; As.lats = {-89, -45, 0, 1e-9, 30, 60, 89.999999999, 90, -90}; As.dlons = {0, 30, -179}; check_same(ctx, E, forms[0], U, O, As, 2e-9Q * (E.a / WGS84_A)); }
         }
         // SetScale on the first form
-        if (!forms.empty()) for (double ls : {-60.0, 0.0, 1e-9, 45.0, 89.0}) for (double ks : {1.0, 0.9}) {
+        if (albers_south) ctx.list("skipped", "AlbersEqualArea::SetScale on southern-hemisphere cones: it evaluates the defective Forward (known finding albers-south-forward-uses-minus-lat), nothing checkable remains");
+        if (!forms.empty() && !albers_south) for (double ls : {-60.0, 0.0, 1e-9, 45.0, 89.0}) for (double ks : {1.0, 0.9}) {
           mc::Ctx::Case cs0(ctx);
           std::shared_ptr<LambertConformalConic> lc; std::shared_ptr<AlbersEqualArea> al;
           Under U; U.name = forms[0].name + ".SetScale(" + fmt(ls) + "," + fmt(ks) + ")";
@@ -465,7 +500,7 @@ int main(int argc, char** argv) {
           Axes As; As.lats = {ls, -45, 30, 60}; As.dlons = {0, 30, -179}; As.lon0s = {0};
           check_projection(ctx, E, U, Os, As, f2, {}, 1.0, false);
           { double x, y, g, k; U.fwd(0, ls, 20, x, y, g, k); Q e = fabsq(Q(k) / Q(ks) - 1);
-            if (e > 8e-15Q) ctx.fail(U.name + " setscale-k", U.name + ": Forward gives k=" + fx(k) + " at the SetScale latitude", {{"kind", "setscale-k"}, {"proj", U.name}}); }
+            if (e > 1.6e-14Q) ctx.fail(U.name + " setscale-k", U.name + ": Forward gives k=" + fx(k) + " at the SetScale latitude", {{"kind", "setscale-k"}, {"proj", U.name}}); }
         }
       }
     }
